@@ -26,8 +26,10 @@ type Body struct {
 }
 
 type Node struct {
-	Key  string `json:"key"`
-	Body Body   `json:"body"`
+	Key    string `json:"key"`
+	Body   Body   `json:"body"`
+	Native string `json:"native,omitempty"` // subset of "isct": natively implemented paradigms ("" = "i")
+	Chunks []int  `json:"chunks,omitempty"` // how a streaming form splits its output (sizes-1)
 }
 
 type Branch struct {
@@ -174,7 +176,7 @@ func Build(g *Graph, prefix string, bo *BuildOpts) (*compose.Graph[M, M], error)
 			if bo != nil && bo.Wrap != nil {
 				f = bo.Wrap(path, f)
 			}
-			err = cg.AddLambdaNode(n.Key, compose.InvokableLambda(f))
+			err = cg.AddLambdaNode(n.Key, nativeLambda(f, n.Native, n.Chunks))
 		}
 		if err != nil {
 			return nil, fmt.Errorf("add node %s: %w", n.Key, err)
